@@ -375,7 +375,7 @@ example : Out.closed 1 ∈ (feed {} twoClients 1 [0x20, 2, 0, 0]).2 ∧
 
 /-- a served chunk: PINGREQ + SUBSCRIBE `x` from `a`: PINGRESP and SUBACK written, connection open -/
 example : (feed {} twoClients 1 [0xC0, 0, 0x82, 7, 0, 1, 0, 0, 1, 120, 0]).2 =
-    [.wrote 1 .pingresp, .wrote 1 (.suback 1 [0])] ∧
+    [.wrote 1 .pingresp, .wrote 1 (.suback 5 1 [0])] ∧
     (getObj (feed {} twoClients 1 [0xC0, 0, 0x82, 7, 0, 1, 0, 0, 1, 120, 0]).1 1).isOpen = true := by
   decide
 
